@@ -3,7 +3,7 @@
    inputs.  Changing a single response (e^, r1^ or r3^) moves T1 or T2 (the points Abar and D are not the identity in an
    accepted proof), so such an edit -- in particular every bit flip inside those 96 octets that still decodes -- is
    rejected unless it exhibits a collision. *)
-From ZK Require Import Laws BaseLemmas ModelLemmas SignProofs Codec NoPanic ProofComplete Soundness UpdateProofs Separation Binding.
+From ZK Require Import Laws BaseLemmas ModelLemmas SignProofs Codec NoPanic ProofComplete Soundness UpdateProofs Separation Binding Extractor.
 Open Scope N_scope.
 
 Section Mal.
@@ -114,3 +114,50 @@ Section Mal.
       revert Hz. apply mul_nonzero; [|exact Hd0]. intros Hz. apply Hr3. transitivity (p_r3_cap E p - p_r3_cap E p' + p_r3_cap E p'); [ring|]. rewrite Hz. ring.
   Qed.
 End Mal.
+
+(* ---------------------------------------------------------------- C06: the commitment proof *)
+Section MalC.
+  Context (E : env) (LW : Laws E).
+  Notation S := (SO E).
+  Notation P := (PR E).
+  Notation Fd := (F S).
+  Notation G1t := (@G1 S P).
+
+  Local Notation "0" := (f0 S).
+  Local Infix "+" := (fadd S).
+  Local Infix "*" := (fmul S).
+  Local Infix "-" := (fsub S).
+  Local Notation d1 := (dl1 E LW).
+
+  Add Field Ffmalc : (Fth E LW).
+
+  Definition blind_challenge_octets (C Cbar : G1t) (gens : list G1t) : bytes :=
+    i2osp8 (N.of_nat (length gens - 1)) ++ serialize_g1 E gens ++ g1_enc P C ++ g1_enc P Cbar.
+
+  (* two accepted commitment proofs for the same C with the same challenge field: same recomputed Cbar, or a collision *)
+  Theorem commit_same_challenge_same_Cbar C z z' bgs api :
+    core_commit_verify E C z bgs api = Ok tt ->
+    core_commit_verify E C z' bgs api = Ok tt ->
+    z_chal E z = z_chal E z' -> length (z_m_cap E z) = length (z_m_cap E z') ->
+    exists bg G2_ Js, get_range bgs 0 (length (z_m_cap E z) + 1) = Some bg /\ bg = G2_ :: Js /\
+      (commit_Cbar E C G2_ Js z = commit_Cbar E C G2_ Js z' \/
+       Collision (fun x => f_of_okm S (expand E x (api ++ c_h2s (cs E)) 48))
+                 (blind_challenge_octets C (commit_Cbar E C G2_ Js z) bg) (blind_challenge_octets C (commit_Cbar E C G2_ Js z') bg)).
+  Proof.
+    intros V1 V2 Hc Hl.
+    destruct (core_commit_verify_accepts E LW C z bgs api V1) as [bg [G2_ [Js [Hg [Hbg C1]]]]].
+    destruct (core_commit_verify_accepts E LW C z' bgs api V2) as [bg' [G2' [Js' [Hg' [Hbg' C2]]]]].
+    rewrite <- Hl in Hg'. rewrite Hg in Hg'. injection Hg' as Hbb. rewrite <- Hbb in Hbg', C2. rewrite Hbg in Hbg'.
+    injection Hbg' as HG HJ. rewrite <- HG, <- HJ in C2. clear Hbb HG HJ.
+    exists bg, G2_, Js. split; [exact Hg|]. split; [exact Hbg|].
+    fold (commit_Cbar E C G2_ Js z) in C1. fold (commit_Cbar E C G2_ Js z') in C2.
+    destruct (list_eq_dec N.eq_dec (blind_challenge_octets C (commit_Cbar E C G2_ Js z) bg) (blind_challenge_octets C (commit_Cbar E C G2_ Js z') bg)) as [Heq|Hneq].
+    - left. unfold blind_challenge_octets in Heq. apply app_inv_head in Heq. apply app_inv_head in Heq. apply app_inv_head in Heq.
+      apply (g1_enc_inj E LW). exact Heq.
+    - right. split; [exact Hneq|].
+      unfold calculate_blind_challenge, hash_to_scalar in C1, C2.
+      destruct (Nat.eqb (length bg) 0); [discriminate|]. destruct (Nat.ltb _ _); [discriminate|].
+      injection C1 as E1. injection C2 as E2. unfold blind_challenge_octets.
+      transitivity (z_chal E z); [exact E1|]. rewrite Hc. symmetry. exact E2.
+  Qed.
+End MalC.
